@@ -165,18 +165,33 @@ Print Assumptions C16_dead_nonvacuous.
 (* THE DISPATCH RULE ACKNOWLEDGES EVERYTHING IT RECEIVES.  In ANY node state [n] (hence in every state
    reachable by any message sequence), every non-ZLB control message whose header names the registered tunnel
    passes through the receive step — first delivery or retransmission, any message type and session id,
-   and whatever the message's handler does afterwards (arbitrary replies, tunnel removal; session
-   lookups and FSM errors live in the handler): Nr moves exactly by the in-order rule, and either the ZLB
-   timer is armed for now + zlbDelay or a packet sent after the receive step already carries the new Nr. *)
+   and whatever the message's handler does afterwards (arbitrary replies; session lookups and FSM errors
+   live in the handler): Nr moves exactly by the in-order rule, and
+   - if the message is accepted and its handler unregisters the tunnel (StopCCN: the runner stops with it),
+     a packet carrying the new Nr has been written IN THIS STEP and the ZLB timer is disarmed
+     ([flushed_since]; FlushAck, e462f04) — no timer is relied upon;
+   - otherwise the ZLB timer is armed for now + zlbDelay or a packet written after the receive step already
+     carries the new Nr ([acked_since]); the runner then reaches the deadline (the C16_runner theorems). *)
 Theorem C16_dispatch_acks_everything :
   forall n m now b,
   n_known n = true -> m_tid_ok m = true -> k_body (m_pkt m) = Some b ->
   let n' := node_dispatch n m now in
   let c := e_ch (n_ep n) in
   c_nr (e_ch (n_ep n')) = (if k_ns (m_pkt m) =? c_nr c then u16 (c_nr c + 1) else c_nr c) /\
-  acked_since (e_f (n_ep n)) now (e_sent (n_ep n)) (n_ep n').
+  (if (k_ns (m_pkt m) =? c_nr c) && m_removes m
+   then flushed_since (e_sent (n_ep n)) (n_ep n')
+   else acked_since (e_f (n_ep n)) now (e_sent (n_ep n)) (n_ep n')).
 Proof. exact dispatch_acks_everything. Qed.
 Print Assumptions C16_dispatch_acks_everything.
+
+(* non-vacuity of the teardown branch: the StopCCN is acknowledged (ZLB Ns=1 Nr=2) without any Tick, the tunnel
+   is gone and a later Tick event does nothing *)
+Example C16_stopccn_flushed :
+  let n := node_run (mkN true (new_endpoint 0 0 0 0 16 0 0)) stop_msgs in
+  n_known n = false /\ c_zlb (e_ch (n_ep n)) = None /\
+  map (fun p => (k_body p, k_ns p, k_nr p)) (e_sent (n_ep n)) = [(Some 7, 0, 1); (None, 1, 2)].
+Proof. exact stop_example. Qed.
+Print Assumptions C16_stopccn_flushed.
 
 (* ZLBs and messages that do not belong to a registered tunnel never move Nr *)
 Theorem C16_dispatch_nr_unchanged :
